@@ -724,7 +724,7 @@ func (x *Exec) callCommon(fr *Frame, st *State, in ssa.Instruction, c *ssa.CallC
 			return
 		}
 		x.note("interface call without contract: " + types.TypeString(c.Value.Type(), qualifier) + "." + c.Method.Name() + " (heap havoced)")
-		x.havocAll(st)
+		x.havocAllCall(st, append([]Val{recv}, args...))
 		k(st, x.freshResult(st, rt, c.Method.Name()))
 		return
 	}
@@ -740,7 +740,7 @@ func (x *Exec) callCommon(fr *Frame, st *State, in ssa.Instruction, c *ssa.CallC
 			return
 		}
 		x.note("call through function value without contract at " + x.where(in) + " (heap havoced)")
-		x.havocAll(st)
+		x.havocAllCall(st, append([]Val{fnv}, args...))
 		k(st, x.freshResult(st, rt, "dyn"))
 		return
 	}
